@@ -266,6 +266,11 @@ def post_C18(drv, res, binary, tier, seed):
         for sig, detail in cl_offline.check_key_record(rec):
             detail = dict(detail, case=rec["case"], N=rec["N"][:48] + "..")
             res["violations"].append({"signature": sig, "scenario": 0, "detail": detail})
+    primes = res.get("extra", {}).pop("c18_primes", [])
+    for h in primes:
+        if not cl_offline.is_probable_prime(int(h, 16)):
+            res["violations"].append({"signature": "C18:random_prime-not-prime", "scenario": 0, "detail": {"value": h[:64]}})
+    res.setdefault("extra", {})["random_primes_checked_offline"] = len(primes)
     res.setdefault("extra", {})["keys_checked_offline"] = len(recs)
     res["extra"]["offline_checker"] = "lib/cl_offline.py (Python ints, Miller-Rabin 40 rounds, Euler criterion, Jacobi)"
     if recs:
